@@ -2,6 +2,8 @@
 C19 driver.  Case lines (shared with harness/c19/c19.c), one real call of the controlling thread each:
 
   post <producer> <key> <data> | wakeup | wait <max>
+  wbegin <max> | wread | wend      ONE wait step by step: until its doorbell read / until the read is done / until it
+                                   returns; posts and wake-ups of other threads may come in between
   qnew <cap> <maxmsg> <flags> | enq <producer> <value> <size> | deq <bufsize> | qstat | qclear
   wnew <w> hold|run | wstate <w> | wrelease <w> | wstep <w> | wquit <w> | wstop <w> | wjoin <w> <ms> | wdestroy <w>
   tinit | tstart <ms> | tstop | tactive | tsleep <ms> | tticks | tafter | tcleanup
@@ -25,6 +27,9 @@ def parseCmd (line : String) : Option Cmd :=
   | ["post", p, k, d] => do some (.post (← p.toNat?) (← k.toNat?) (← d.toNat?))
   | ["wakeup"] => some .wakeup
   | ["wait", m] => do some (.wait (← m.toNat?))
+  | ["wbegin", m] => do some (.wbegin (← m.toNat?))
+  | ["wread"] => some .wread
+  | ["wend"] => some .wend
   | ["qnew", c, m, f] => do some (.qnew (← c.toNat?) (← m.toNat?) (← f.toNat?))
   | ["enq", p, v, sz] => do some (.enq (← p.toNat?) (← v.toNat?) (← sz.toNat?))
   | ["deq", b] => do some (.deq (← b.toNat?))
@@ -64,6 +69,8 @@ def parseEv (line : String) : Option Ev :=
   match toks line with
   | ["post", p, k, d, rc] => do some (.post (← p.toNat?) (← k.toNat?) (← d.toNat?) (← rc.toInt?))
   | ["wakeup", rc] => do some (.wakeup (← rc.toInt?))
+  | ["wbegin", m, "parked"] => do some (.wbegin (← m.toNat?))
+  | ["wread"] => some .wread
   | "wait" :: m :: n :: items => do
     let evs ← items.mapM parseItem
     if evs.length = (← n.toNat?) then some (.wait (← m.toNat?) evs) else none
